@@ -399,6 +399,8 @@ fn plan(property: &str, tier: &str) -> Vec<(&'static str, &'static str, usize)> 
                     ("pco", "rb_dense+k1", 5),
                     ("bytes", "rb_raw+k1+faults", 4),
                     ("bytes", "rb_raw+k2+faults", 4),
+                    // compressed change records end with the pushed values (nothing follows)
+                    ("pco", "rb_dense+k1+faults", 3),
                 ]
             } else {
                 vec![
